@@ -184,13 +184,14 @@ def _viol_hash(prop_id, case, viol):
 def run_check(prop_id, tier='quick', seed=0, verbose=False):
     start = time.time()
     os.makedirs(WORK_DIR, exist_ok=True)
-    os.makedirs(os.path.join(VERIF_DIR, 'evidence'), exist_ok=True)
-    os.makedirs(os.path.join(VERIF_DIR, 'replays'), exist_ok=True)
+    out_dir = os.environ.get('VERIF_OUT', VERIF_DIR)  # scratch output directory when trying seeded changes
+    os.makedirs(os.path.join(out_dir, 'evidence'), exist_ok=True)
+    os.makedirs(os.path.join(out_dir, 'replays'), exist_ok=True)
     from vf import env
     env.bootstrap()
     prop = load_prop(prop_id)
     import glob
-    for stale in glob.glob(os.path.join(VERIF_DIR, 'replays', '%s-*.json' % prop_id)):
+    for stale in glob.glob(os.path.join(out_dir, 'replays', '%s-*.json' % prop_id)):
         try:
             os.remove(stale)
         except OSError:
@@ -292,7 +293,7 @@ def run_check(prop_id, tier='quick', seed=0, verbose=False):
         if vhash in seen_hashes:
             continue
         seen_hashes.add(vhash)
-        path = os.path.join(VERIF_DIR, 'replays', '%s-%s.json' % (prop_id, vhash))
+        path = os.path.join(out_dir, 'replays', '%s-%s.json' % (prop_id, vhash))
         if len(replay_paths) < 40:
             dump_json(dict(property=prop_id, tier=tier, seed=seed, case=case, violation=viol), path)
             replay_paths.append(path)
@@ -327,7 +328,7 @@ def run_check(prop_id, tier='quick', seed=0, verbose=False):
         wall_s=round(wall, 2),
         violations=len(seen_hashes),
     )
-    dump_json(evidence, os.path.join(VERIF_DIR, 'evidence', '%s.json' % prop_id))
+    dump_json(evidence, os.path.join(out_dir, 'evidence', '%s.json' % prop_id))
 
     for line in lines:
         print(line)
